@@ -172,6 +172,21 @@ func addState(l []kvState, s kvState) []kvState {
 }
 
 // observe processes one command with its reply; faulted = a backend fault was planned for it.
+// normalOutcome: the status is one this command is answered with by a healthy backend (a miss, an
+// "exists", a "not stored"): injected, it is not an error but a wrong statement about the backend's
+// content, which no cache in front of it can detect — outside the fault model of the property.
+func normalOutcome(kind string, status uint16) bool {
+	switch status {
+	case 0x0001:
+		return kind != "set" && kind != "add"
+	case 0x0002:
+		return kind == "add" || kind == "gat" || kind == "get"
+	case 0x0005:
+		return kind == "append" || kind == "prepend"
+	}
+	return false
+}
+
 func (o *possibleOracle) observe(proto string, c Command, out []byte, sentinelLen int, ending string, faulted bool) string {
 	body := out
 	if ending == "eof" && len(out) >= sentinelLen {
@@ -261,7 +276,7 @@ func init() {
 		defer d.Close()
 		r := rand.New(rand.NewSource(seed*733 + 1))
 		distinct := map[string]bool{}
-		sample := 0.08
+		sample := 0.03
 		if tier == "thorough" {
 			sample = 0.6
 		}
@@ -288,6 +303,14 @@ func init() {
 							// error there must not be papered over by the back-fill of the keys that were read)
 							always := cmd.Kind == "get" && len(cmd.Keys) > 1 && f.Index <= 2 && lose && proto == "bin" &&
 								(f.Kind != "status" || f.Status == 0x0082)
+							// always run: every error status in answer to the L1 leg of a write to a key that L1
+							// holds (the compensation after a refused L1 write must not depend on the status)
+							switch cmd.Kind {
+							case "set", "add", "replace", "append", "prepend", "delete", "touch":
+								if f.Tier == "L1" && f.Kind == "status" && f.Index <= 1 && !lose && proto == "bin" && cfg.Orca == "l1l2" {
+									always = true
+								}
+							}
 							if r.Float64() > sample && !always && os.Getenv("VERIF_ONLY") == "" {
 								continue
 							}
@@ -346,7 +369,27 @@ func init() {
 								if st.Conn != faultedConn && ob.Ending != "eof" {
 									fail("collateral-close:"+st.Cmd.Kind, "a connection other than the one whose backend failed was closed ("+ob.Ending+")")
 								}
-								if msg := orc.observe(pr, st.Cmd, ob.Out, sl, ob.Ending, faultNext); msg != "" {
+								if faultNext && f.Kind == "status" && normalOutcome(st.Cmd.Kind, f.Status) {
+									// the backend "lied" with a status that is a normal outcome of this command:
+									// whatever was acknowledged, nothing is known about the key any more
+									rep.Distribution["fault:status-that-is-a-normal-outcome"]++
+									for _, k := range append([][]byte{st.Cmd.Key}, func() [][]byte {
+										var ks [][]byte
+										for _, gk := range st.Cmd.Keys {
+											ks = append(ks, gk.Key)
+										}
+										return ks
+									}()...) {
+										if len(k) > 0 {
+											var all []kvState
+											for _, p := range orc.get(string(k)) {
+												n, _ := specApply(st.Cmd, p)
+												all = addState(addState(all, p), n)
+											}
+											orc.poss[string(k)] = all
+										}
+									}
+								} else if msg := orc.observe(pr, st.Cmd, ob.Out, sl, ob.Ending, faultNext); msg != "" {
 									fail("stale-or-foreign-read:"+st.Cmd.Kind+":"+cmd.Kind+":"+f.Kind, msg)
 								}
 								faultNext = false
